@@ -332,6 +332,12 @@ def run(ctx: Ctx) -> None:
         acq = [c for n, c in installs if n == "session-lock-acquire"][0]
         ctx.check(st_kw is not None and derives_from(pr, st_kw, {g["entry"]}) and g["entry"] in names_in(acq.func), "RF-TAINT", "installed-session-is-looked-up-entry", pr, sc0,  # type: ignore[attr-defined]
                   ok="ctx.session and the lock taken are those of the entry returned by the registry", bad="the session object installed / the lock taken is not the looked-up entry's")
+    # a session closed between the lookup and the lock acquisition is not dispatched (clause shared with C26)
+    from . import c26 as _c26
+
+    lockf26, fields26 = _c26._entry_fields(ctx)
+    acqs26, evar26, install26 = _c26._acquire_and_install(ctx, pr, lockf26, fields26)
+    _c26._check_revalidation(ctx, pr, acqs26, install26, evar26, ctx.repo.cls(_c26.REG), fields26, lockf26)
     # no header -> no session
     hdr_ifs = [n for n in walk_scope(pr.node) if isinstance(n, ast.If) and isinstance(n.test, ast.Name) and any(isinstance(c, ast.Call) and last_attr(c) == "get_header" for v in binding_values(pr, n.test.id) for c in ast.walk(v))]
     hi = [n for n in hdr_ifs if any(x is g["oc"] for st in n.body for x in ast.walk(st))]
